@@ -429,6 +429,18 @@ func Rng(seed int64, stream int64) *rand.Rand {
 }
 
 // ParallelFor runs f(i) for i in [0,n) on `workers` goroutines.
+// QuietFirst runs the first `quiet` indices two at a time before the rest runs `workers` wide.
+// The race detector only reports accesses that no synchronisation orders; in a process busy with
+// dozens of cases, unrelated locks (statistics, logger) order almost everything by accident, so
+// every race-detector check gets a slice of its cases with little else going on.
+func QuietFirst(n, quiet, workers int, f func(i int)) {
+	if quiet > n {
+		quiet = n
+	}
+	ParallelFor(quiet, 2, f)
+	ParallelFor(n-quiet, workers, func(i int) { f(i + quiet) })
+}
+
 func ParallelFor(n, workers int, f func(i int)) {
 	if workers < 1 {
 		workers = 1
